@@ -59,6 +59,13 @@ CLAIMED = {
          "fair all-pairs cycles until quiescence; oracle: within 30 cycles nobody is busy and everything accepted is committed by all (measured: 1-7 cycles)",
          "partial: runtime behaviour not exhibited by the model: timers, goroutine scheduling, random peer selection; the convergence bound is exploration only",
          "Coq lemmas on the logic + controlled-schedule exploration with a deterministic fair suffix"),
+ "C13": ("PARTIAL. Proved: a frame is computed once per round and never recomputed; a block carries its frame, round and validator set. Reset/InsertFrameEvent are not in the "
+         "Coq model yet, so continuity is decided by the oracle: in dynamic-membership histories half of the joiners fast-forward from a random honest peer's anchor "
+         "(changes pending inside the six-round window and round-0 first events of other joiners included) and keep gossiping; after every action their blocks, frame "
+         "and peers hashes, validator-set history and event rounds are compared with full-history nodes. This exposed three defects that were fixed in /repo "
+         "(3b6a6ac, d85ab32, eae5248) and one known finding (ROOT_DEPTH roots can be insufficient)",
+         "partial: the theorems do not cover the reset path; known finding C13-roots-insufficient is tolerated, identified by its root cause (first divergence = round of an event above the frame)",
+         "Coq lemmas on frames + reset-vs-full-history differential oracle on real cores"),
 }
 NOT_YET = "check not built yet in this commit (work in progress; to be claimed)"
 NA = {}
